@@ -119,20 +119,31 @@ EmitUdp == /\ IsEvent("emit") /\ Ev.kind = "udp" /\ expect = NoExp
 
 \* C11/C09 receive side
 Dgram(e) == [src |-> e.src, sport |-> e.sport, pay |-> e.pay]
+\* queue entries are [d |-> datagram, maybe |-> it may have been dropped on arrival (the socket was not empty then)]
+AllMaybe(qs) == \A k \in 1..Len(qs) : qs[k].maybe
+\* index of the first entry equal to d that is reachable by skipping droppable entries only, or 0
+FirstMatch(qs, d) == LET I == {i \in 1..Len(qs) : qs[i].d = d /\ \A j \in 1..(i - 1) : qs[j].maybe} IN
+                     IF I = {} THEN 0 ELSE CHOOSE i \in I : \A k \in I : i <= k
+\* what a drain returned (gs, in order) is the queue with some droppable entries left out
+RECURSIVE SubMatch(_, _)
+SubMatch(qs, gs) == IF gs = <<>> THEN AllMaybe(qs)
+                    ELSE LET i == FirstMatch(qs, Dgram(Head(gs))) IN i > 0 /\ SubMatch(SubSeq(qs, i + 1, Len(qs)), Tail(gs))
 InjectUdp == /\ IsEvent("op") /\ Ev.op = "inject" /\ Ev.kind = "udp" /\ expect = NoExp /\ pemit = <<>>
              /\ UniqueBinding
              /\ LET t == Target("udp", Fld(Ev, "nic", 1), Ev.v, Ev.src, Ev.sport, Ev.dst, Ev.dport) IN
                 IF t = NoSock \/ socks[t].rcvclosed \/ Fld(Ev, "forcelen", 0) # 0
                 THEN UNCHANGED q                                                        \* nobody gets it
-                ELSE \/ q' = [q EXCEPT ![t] = Append(@, Dgram(Ev))]                       \* whole, to the single target
-                     \/ (q[t] # <<>> /\ UNCHANGED q)                                      \* or dropped whole under pressure
+                \* whole, to the single target - or dropped whole under buffer pressure, which is only possible when the target
+                \* already holds something: the entry is then marked droppable and the reads decide (no branching here: a burst of
+                \* k arrivals would otherwise make 2^k behaviours)
+                ELSE q' = [q EXCEPT ![t] = Append(@, [d |-> Dgram(Ev), maybe |-> (@ # <<>>)])]
              /\ UNCHANGED <<addrs, promisc, socks, pemit, expect>>
 
 Read == /\ IsEvent("op") /\ Ev.op = "read" /\ expect = NoExp /\ socks[Ev.s].typ = "udp"
         /\ IF Ev.ok
-           THEN /\ q[Ev.s] # <<>> /\ Head(q[Ev.s]) = Dgram(Ev)                            \* FIFO, whole, true sender
-                /\ q' = [q EXCEPT ![Ev.s] = Tail(@)]
-           ELSE /\ q[Ev.s] = <<>> /\ UNCHANGED q
+           THEN /\ FirstMatch(q[Ev.s], Dgram(Ev)) > 0                                   \* FIFO, whole, true sender (droppable ones before it were dropped)
+                /\ q' = [q EXCEPT ![Ev.s] = SubSeq(@, FirstMatch(@, Dgram(Ev)) + 1, Len(@))]
+           ELSE /\ AllMaybe(q[Ev.s]) /\ q' = [q EXCEPT ![Ev.s] = <<>>]                    \* nothing there: whatever was pending had been dropped
                 /\ (Ev.err = "endpoint is closed for receive" => socks[Ev.s].rcvclosed)
         /\ UNCHANGED <<addrs, promisc, socks, pemit, expect>>
 
@@ -141,7 +152,7 @@ GotOf(s) == SelectSeq(Ev.got, LAMBDA g : g.s = s)
 ReadAll == /\ IsEvent("op") /\ Ev.op = "readall" /\ expect = NoExp
            /\ \A i \in 1..Len(Ev.got) : Ev.got[i].s \in Sids
            /\ \A s \in Sids : socks[s].typ = "udp" =>
-                 LET g == GotOf(s) IN Len(g) = Len(q[s]) /\ \A i \in 1..Len(g) : Dgram(g[i]) = q[s][i]
+                 SubMatch(q[s], GotOf(s))
            /\ \A s \in Sids : socks[s].typ = "tcp" => GotOf(s) = <<>>
            /\ q' = [s \in Sids |-> <<>>]
            /\ UNCHANGED <<addrs, promisc, socks, pemit, expect>>
